@@ -1,6 +1,7 @@
 package core
 
 import (
+	"bytes"
 	"bufio"
 	"errors"
 	"fmt"
@@ -239,6 +240,9 @@ type WriterPlan struct {
 	// with values that mean something else elsewhere (io.EOF from a pipe whose reader
 	// closed with it, io.ErrShortWrite, io.ErrClosedPipe, io.ErrUnexpectedEOF)
 	ErrValue error
+	// Capacity: the device is a fixed-size buffer of FailAt bytes: a Write that does not fit
+	// entirely is refused (nothing taken), a later, smaller Write that still fits is accepted
+	Capacity bool
 }
 
 // SimWriter records everything it accepts.
@@ -253,6 +257,8 @@ type SimWriter struct {
 	CallsAfterFail int
 	UsedReadFrom   bool
 	FailedOnce     bool   // a transient failure was delivered
+	Refused        int    // Capacity mode: writes refused because they did not fit
+	AcceptedAfterRefusal int // Capacity mode: bytes taken after the first refusal
 	OnCall         func() // scheduler yield hook
 }
 
@@ -286,6 +292,18 @@ func (w *SimWriter) Write(p []byte) (int, error) {
 	}
 	if len(p) == 0 {
 		return 0, nil // zero-length writes succeed even on a full device
+	}
+	if w.plan.Capacity && w.plan.FailAt >= 0 {
+		if len(w.Accepted)+len(p) > w.plan.FailAt {
+			w.Refused++
+			w.c.Fault("write-refused-does-not-fit")
+			return 0, w.errValue()
+		}
+		if w.Refused > 0 {
+			w.AcceptedAfterRefusal += len(p)
+		}
+		w.Accepted = append(w.Accepted, p...)
+		return len(p), nil
 	}
 	if w.plan.Transient && w.FailedOnce {
 		w.CallsAfterFail++
@@ -418,12 +436,38 @@ func (o onlyReader) Read(p []byte) (int, error) { return o.r.Read(p) }
 // interfaces for which libraries keep fast paths). buffered reports that the
 // wrapper may take more from the stream than its consumer asked for.
 func (c *Ctx) WrapSource(label string, sr *SimReader) (r io.Reader, buffered bool) {
-	kind := c.Pick(label+".sourceType", 4)
-	if c.Chance(label+".fileSource", 1, 40) { // (real files are slow: kept rare)
-		kind = 4
+	kind := c.Pick(label+".sourceType", 5)
+	if c.Chance(label+".fileSource", 1, 40) { // (real files and pipes are slow: kept rare)
+		kind = 5 + c.Pick(label+".fileSourceKind", 2)
 	}
 	switch kind {
 	case 4:
+		// an io.SectionReader positioned behind a prefix: a Seeker that has no Len method
+		if sr.plan.ErrAt >= 0 || sr.pos != 0 {
+			return sr, false
+		}
+		prefix := c.Bytes(label+".sectionPrefix", 1, 64)
+		all := append(append([]byte(nil), prefix...), sr.data...)
+		s := io.NewSectionReader(bytes.NewReader(all), 0, int64(len(all)))
+		s.Seek(int64(len(prefix)), io.SeekStart)
+		c.Probe("source is an io.SectionReader positioned behind a prefix")
+		return s, false
+	case 6:
+		// the read end of a pipe (an *os.File that is no regular file: size 0, no seeking),
+		// fed by a writer that delivers the whole stream and closes
+		if sr.plan.ErrAt >= 0 || sr.pos != 0 || len(sr.data) > 1<<20 {
+			return sr, false
+		}
+		pr, pw, err := os.Pipe()
+		if err != nil {
+			return sr, false
+		}
+		data := sr.data
+		go func() { pw.Write(data); pw.Close() }()
+		c.Cleanup(func() { pr.Close() })
+		c.Probe("source is the read end of a pipe")
+		return pr, false
+	case 5:
 		// a real *os.File positioned behind other data in the same file (an artifact stored
 		// inside a container): only for fault-free delivery plans, whose faults a real file
 		// cannot reproduce
